@@ -81,6 +81,21 @@ impl<K: Eq + Hash, V> DashMap<K, V> {
     Some(Ref { _guard: shard, k, v })
   }
 
+  pub fn remove(&self, key: &K) -> Option<(K, V)> {
+    let idx = self.shard_of(key);
+    self.shards[idx].write().remove_entry(key)
+  }
+
+  pub fn clear(&self) {
+    for s in self.shards.iter() {
+      s.write().clear();
+    }
+  }
+
+  pub fn is_empty(&self) -> bool {
+    self.len() == 0
+  }
+
   pub fn contains_key(&self, key: &K) -> bool {
     let idx = self.shard_of(key);
     self.shards[idx].read().contains_key(key)
